@@ -401,6 +401,8 @@ def worker(c):
         P.count("rows:" + CLASS_NAMES[cls], int((rows.kind == cls).sum()))
     for a, dim, mu in rows.cones:
         P.count("elliptic_contacts:dim%d" % dim)
+        if dim >= 3 and float(mu[0]) != float(mu[1]):
+            P.count("elliptic_contacts:anisotropic-tangential-friction")
     P.note_max("log10_R_spread", float(np.log10(rows.R.max() / rows.R.min())))
     P.note_max("log10_R_max", float(np.log10(rows.R.max())))
     P.note_max("minus_log10_R_min", float(-np.log10(rows.R.min())))
